@@ -35,6 +35,19 @@ def _outcome(path, ev):
     for k, v in path.decisions:
         if k == ("discr", res):
             return v
+    # `rx.try_recv().ok()?` / `.ok()` + `if let Some(..)`: the decision is made on the converted
+    # result; Continue / Some mean Ok, Break / None mean Err
+    for k, v in path.decisions:
+        if k[0] != "discr":
+            continue
+        t = k[1]
+        wrapped = False
+        while isinstance(t, tuple) and t and t[0] in ("trybranch", "resok") and len(t) > 1:
+            t = t[1]
+            wrapped = True
+        if wrapped and t == res:
+            star = "*" if str(v).startswith("*") else ""
+            return star + {"Continue": "Ok", "Some": "Ok", "Break": "Err", "None": "Err"}.get(str(v).lstrip("*"), str(v).lstrip("*"))
     return None
 
 
